@@ -70,7 +70,11 @@ def _worker(modname, conn, logpath):
             return
         i, unit = msg
         try:
+            t0 = time.time()
             res = mod.run_unit(unit)
+            res.setdefault("counters", {})
+            if isinstance(unit, tuple) and unit and isinstance(unit[0], str):
+                res["counters"]["cpu_s:" + unit[0]] = res["counters"].get("cpu_s:" + unit[0], 0) + round(time.time() - t0, 2)
             conn.send((i, "ok", res))
         except BaseException as e:  # noqa
             conn.send((i, "err", f"{type(e).__name__}: {e}\n{traceback.format_exc()[-3000:]}"))
